@@ -334,7 +334,6 @@ def summarise(R, it):
     n0 = len(R.pc)
     n_trace = len(R.trace)
     n_fresh = R.fresh_n
-    R.solver.push()
     R.summarising = getattr(R, 'summarising', 0) + 1
     try:
         if B.is_set(coll):
@@ -365,7 +364,6 @@ def summarise(R, it):
         s.facts = R.pc[n0 + 1:n1] + [z3.Implies(s.conds, f) for f in R.pc[n1 + 1:]]
     finally:
         R.summarising -= 1
-        R.solver.pop()
         del R.pc[n0:]
     s.fresh_range = (n_fresh, R.fresh_n)
     return s
